@@ -152,6 +152,8 @@ int c_var2h(int nvalvar, int nvalh,
             /* Loop */
             varindex++;
             if(varindex+1>=nvalvar) {
+                /* Data ends before the end of the period */
+                if(t2<end) miss=1;
                 break;
             }
 
